@@ -82,13 +82,8 @@ Definition expr_head (c : N) : Prop := opener c \/ is_digit c = true \/ c = 40.
 
 Lemma print_amt_head am : amt_ok am = true -> exists c r, print_amt am = c :: r /\ is_digit c = true.
 Proof.
-  intro H. destruct am as [t | t w | t w]; cbn [amt_ok print_amt] in *.
-  - exact (ntext_head t H).
-  - apply andb_true_iff in H as [H _]. destruct (ntext_head t H) as [c [r [E Hc]]]. rewrite E.
-    exists c, (r ++ w ++ [42]). split; [reflexivity | exact Hc].
-  - apply andb_true_iff in H as [H _]. apply andb_true_iff in H as [H _].
-    destruct (ntext_head t H) as [c [r [E Hc]]]. rewrite E.
-    exists c, (r ++ w ++ [37]). split; [reflexivity | exact Hc].
+  intro H. destruct (amt_ok_parts am H) as [Hn _]. destruct (ntext_head (amt_num am) Hn) as [c [r [E Hc]]].
+  unfold print_amt. rewrite E. exists c, (r ++ amt_tail am). split; [reflexivity | exact Hc].
 Qed.
 
 Lemma print_expr_head e : expr_ok e = true -> exists c r, print_expr e = c :: r /\ expr_head c.
@@ -237,6 +232,7 @@ Proof. destruct x; [contradiction | reflexivity]. Qed.
     for a fraction - what precedes the "/" (then horizontal space [w'], "/"). *)
 Inductive num_shape (T : str) : Prop :=
 | ShapeWhole : naked_text T -> forallb amt_char T = true -> num_shape T
+| ShapeWhole2 : naked_text T -> num_shape T
 | ShapeSlash (Y w' R : str) : T = Y ++ w' ++ 47 :: R -> naked_text Y -> forallb is_hsp w' = true -> num_shape T.
 
 Lemma zs_dec_digit_text k n : naked_text (zs k ++ dec_N n) /\ forallb amt_char (zs k ++ dec_N n) = true.
@@ -284,30 +280,25 @@ Proof.
     + exact H3.
 Qed.
 
-Lemma naked_text_snoc (A w : str) (c : N) : naked_text A -> forallb amt_char A = true ->
-  forallb is_hsp w = true -> (c = 42 \/ c = 37) -> naked_text (A ++ w ++ [c]).
+Lemma naked_text_app (A T : str) : naked_text A -> tail_text_ok T = true -> naked_text (A ++ T).
 Proof.
-  intros [c0 [A' [-> [He [Hm Hl]]]]] Hall Hw Hc. exists c0, (A' ++ w ++ [c]). repeat split.
+  intros [c0 [A' [-> [He [Hm Hl]]]]] HT. unfold tail_text_ok in HT. apply andb_true_iff in HT as [Hmid Hlast].
+  exists c0, (A' ++ T). repeat split.
   - exact He.
-  - rewrite forallb_app, Hm, forallb_app, (forallb_impl _ _ _ hsp_naked_mid Hw). cbn [forallb].
-    destruct Hc as [->| ->]; reflexivity.
-  - change (c0 :: A' ++ w ++ [c]) with ((c0 :: A') ++ w ++ [c]). rewrite app_assoc, last_last.
-    destruct Hc as [->| ->]; reflexivity.
+  - rewrite forallb_app, Hm, Hmid. reflexivity.
+  - destruct T as [|t0 T'].
+    + rewrite app_nil_r. exact Hl.
+    + cbn [is_nil orb] in Hlast. apply negb_true_iff in Hlast.
+      change (c0 :: A' ++ t0 :: T') with ((c0 :: A') ++ t0 :: T'). rewrite last_app_nonempty by discriminate. exact Hlast.
 Qed.
 
 Lemma amt_shape am : amt_ok am = true -> num_shape (print_amt am).
 Proof.
-  intro Hok. destruct am as [t | t w | t w]; cbn [amt_ok print_amt] in *.
-  - exact (ntext_shape t Hok).
-  - apply andb_true_iff in Hok as [Ht Hw]. destruct (ntext_shape t Ht) as [A B | Y w' R E HY Hw'].
-    + apply ShapeWhole; [exact (naked_text_snoc _ w 42 A B Hw (or_introl eq_refl))|].
-      rewrite forallb_app, B, forallb_app, (hsp_amt_char w Hw). reflexivity.
-    + apply (ShapeSlash _ Y w' (R ++ w ++ [42])); [|exact HY|exact Hw']. rewrite E. repeat rewrite <- app_assoc. reflexivity.
-  - apply andb_true_iff in Hok as [Hok _]. apply andb_true_iff in Hok as [Ht Hw].
-    destruct (ntext_shape t Ht) as [A B | Y w' R E HY Hw'].
-    + apply ShapeWhole; [exact (naked_text_snoc _ w 37 A B Hw (or_intror eq_refl))|].
-      rewrite forallb_app, B, forallb_app, (hsp_amt_char w Hw). reflexivity.
-    + apply (ShapeSlash _ Y w' (R ++ w ++ [37])); [|exact HY|exact Hw']. rewrite E. repeat rewrite <- app_assoc. reflexivity.
+  intro Hok. destruct (amt_ok_parts am Hok) as [Hn HT]. unfold print_amt.
+  destruct (ntext_shape (amt_num am) Hn) as [A B | A | Y w' R E HY Hw'].
+  - exact (ShapeWhole2 _ (naked_text_app _ _ A HT)).
+  - exact (ShapeWhole2 _ (naked_text_app _ _ A HT)).
+  - apply (ShapeSlash _ Y w' (R ++ amt_tail am)); [|exact HY|exact Hw']. rewrite E. repeat rewrite <- app_assoc. reflexivity.
 Qed.
 
 (** Where a NAME tried on a reference text stops: at the end of the whole
@@ -320,7 +311,9 @@ Lemma p_name_on_reference a nm (k : str) fuel o b :
 Proof.
   intros Hok Hk Hc. destruct a as [[am w]|]; cbn [expr_ok print_expr] in *.
   - apply andb_true_iff in Hok as [Hok Hn]. apply andb_true_iff in Hok as [Ha Hw].
-    destruct (amt_shape am Ha) as [A B | Y w' R E HY Hw'].
+    destruct (amt_shape am Ha) as [A B | A | Y w' R E HY Hw'].
+    + eexists. left. unfold p_name. repeat rewrite <- app_assoc.
+      rewrite (p_string_naked_name (print_amt am) w nm fuel k o b A Hw Hn Hk Hc). reflexivity.
     + eexists. left. unfold p_name. repeat rewrite <- app_assoc.
       rewrite (p_string_naked_name (print_amt am) w nm fuel k o b A Hw Hn Hk Hc). reflexivity.
     + eexists. right. exists w', (R ++ w ++ print_name nm ++ k). eexists. split; [exact Hw'|].
